@@ -8,11 +8,133 @@ verus! {
 //@include prelude/fjall_types.rs
 //@include prelude/replay.rs
 //@include prelude/paths.rs
-//@path Keyspace => KeyspaceH
 //@extract-type src/journal/manager.rs :: EvictionWatermark
 //@include prelude/sealed.rs
 //@pure get
-//@world tree.get_highest_persisted_seqno tree.clear_active_memtable tree.rotate_memtable tree.get_highest_seqno seqno.fetch_max seqno.get journal_manager_lock.enqueue
+//@world meta_keyspace.resolve_id keyspaces_lock.get tree.insert tree.remove tree.remove_weak tree.clear keyspace_id_counter.fetch_max tree.get_highest_persisted_seqno tree.clear_active_memtable tree.rotate_memtable tree.get_highest_seqno seqno.fetch_max seqno.get journal_manager_lock.enqueue
+
+/// journal batches carry non-decreasing seqnos (writers draw them under the journal lock and append in lock order: P-LOCK, U-WRITE)
+pub open spec fn ascending(bs: Seq<BatchV>) -> bool { forall|a: int, b: int| 0 <= a <= b < bs.len() ==> (#[trigger] bs[a]).seqno <= (#[trigger] bs[b]).seqno }
+/// recovery registers every keyspace under the id its meta row names (reg_named, U-META): a journaled id resolves to the handle with that id
+pub open spec fn resolve_is_identity(w: World) -> bool { forall|id: u64| (#[trigger] resolve(w, id)) is Some ==> resolve(w, id) == Some(id) }
+/// the watermark table while a sealed journal is replayed (`bound`: seqno of the batch being applied)
+pub open spec fn wm_inv(wm: HashMap<InternalKeyspaceId, EvictionWatermark>, t: Map<u64, TreeG>, bound: u64) -> bool {
+    &&& wm.keys@.len() == wm.vals@.len()
+    &&& (forall|i: int, j: int| 0 <= i < wm.keys@.len() && 0 <= j < wm.keys@.len() && i != j ==> (#[trigger] wm.keys@[i]) != (#[trigger] wm.keys@[j]))
+    &&& (forall|i: int| 0 <= i < wm.vals@.len() ==> wm_ok(#[trigger] wm.vals@[i]) && wm.vals@[i].keyspace.id == wm.keys@[i] && t.dom().contains(wm.keys@[i]) && wm.vals@[i].lsn <= bound)
+    // every tree whose rebuilt memtable is not empty has a watermark, and the memtable tops out exactly at it
+    &&& (forall|k: u64| #![trigger t[k]] t.dom().contains(k) && t[k].mem_max is Some ==> exists|i: int| 0 <= i < wm.keys@.len() && #[trigger] wm.keys@[i] == k && t[k].mem_max == Some(wm.vals@[i].lsn))
+    &&& (forall|k: u64| #![trigger t[k]] t.dom().contains(k) && t[k].mem_max is Some ==> t[k].mem_max->Some_0 <= bound)
+}
+pub open spec fn has_key(wm: HashMap<InternalKeyspaceId, EvictionWatermark>, id: u64) -> bool { exists|i: int| 0 <= i < wm.keys@.len() && #[trigger] wm.keys@[i] == id }
+pub open spec fn umax(a: u64, b: u64) -> u64 { if a > b { a } else { b } }
+/// `entry(id).and_modify(|p| p.lsn = p.lsn.max(seqno)).or_insert_with(|| EvictionWatermark { keyspace: handle, lsn: seqno })`
+pub open spec fn wm_updated(a: HashMap<InternalKeyspaceId, EvictionWatermark>, b: HashMap<InternalKeyspaceId, EvictionWatermark>, id: u64, seqno: u64, handle: Keyspace) -> bool {
+    if has_key(a, id) {
+        b.keys == a.keys && b.vals@.len() == a.vals@.len()
+        && forall|j: int| 0 <= j < a.keys@.len() ==> #[trigger] b.vals@[j] == (if a.keys@[j] == id { EvictionWatermark { keyspace: a.vals@[j].keyspace, lsn: umax(a.vals@[j].lsn, seqno) } } else { a.vals@[j] })
+    } else {
+        b.keys@ == a.keys@.push(id) && b.vals@ == a.vals@.push(EvictionWatermark { keyspace: handle, lsn: seqno })
+    }
+}
+pub proof fn lemma_wm_step(a: HashMap<InternalKeyspaceId, EvictionWatermark>, b: HashMap<InternalKeyspaceId, EvictionWatermark>, t0: Map<u64, TreeG>, t1: Map<u64, TreeG>,
+        id: u64, seqno: u64, cleared: bool, handle: Keyspace)
+    requires wm_inv(a, t0, seqno), handle.id == id, handle.tree.id@ == id, t0.dom().contains(id), wm_updated(a, b, id, seqno, handle),
+        forall|k: u64| #[trigger] t1.dom().contains(k) <==> t0.dom().contains(k),
+        forall|k: u64| k != id && t0.dom().contains(k) ==> #[trigger] t1[k] == t0[k],
+        t1[id].mem_max == (if cleared { None::<u64> } else { Some(if t0[id].mem_max is Some && t0[id].mem_max->Some_0 > seqno { t0[id].mem_max->Some_0 } else { seqno }) }),
+    ensures wm_inv(b, t1, seqno),
+{
+    if has_key(a, id) {
+        let i0 = choose|i: int| 0 <= i < a.keys@.len() && #[trigger] a.keys@[i] == id;
+        assert(b.vals@[i0].lsn == umax(a.vals@[i0].lsn, seqno));
+        assert forall|k: u64| #![trigger t1[k]] t1.dom().contains(k) && t1[k].mem_max is Some implies exists|i: int| 0 <= i < b.keys@.len() && #[trigger] b.keys@[i] == k && t1[k].mem_max == Some(b.vals@[i].lsn) by {
+            if k == id { assert(b.keys@[i0] == id); }
+            else { let i = choose|i: int| 0 <= i < a.keys@.len() && #[trigger] a.keys@[i] == k && t0[k].mem_max == Some(a.vals@[i].lsn); assert(b.keys@[i] == k && b.vals@[i] == a.vals@[i]); }
+        }
+    } else {
+        let n = a.keys@.len() as int;
+        assert(b.keys@[n] == id && b.vals@[n].lsn == seqno);
+        assert(t0[id].mem_max is None) by { if t0[id].mem_max is Some { let i = choose|i: int| 0 <= i < a.keys@.len() && #[trigger] a.keys@[i] == id && t0[id].mem_max == Some(a.vals@[i].lsn); } }
+        assert forall|k: u64| #![trigger t1[k]] t1.dom().contains(k) && t1[k].mem_max is Some implies exists|i: int| 0 <= i < b.keys@.len() && #[trigger] b.keys@[i] == k && t1[k].mem_max == Some(b.vals@[i].lsn) by {
+            if k == id { assert(b.keys@[n] == id); }
+            else { let i = choose|i: int| 0 <= i < a.keys@.len() && #[trigger] a.keys@[i] == k && t0[k].mem_max == Some(a.vals@[i].lsn); assert(b.keys@[i] == k && b.vals@[i] == a.vals@[i]); }
+        }
+    }
+}
+
+//@extract src/recovery.rs :: recover_sealed_memtables as=sealed_replay world desugar_for_plain=0 desugar_for=1,2 props=C02+C03+C04+C10+C12
+//@anchor for batch in reader
+//@sig fn sealed_replay(db: &Database, reader: JournalBatchReader, keyspaces_lock: &KsReadGuard, watermarks: &mut HashMap<InternalKeyspaceId, EvictionWatermark>) -> FjResult<()>
+//@contract
+    requires old(w).recovering, !old(w).active, reader.idx@ == 0, no_indirection(reader.emits@), ids_valid(reader.emits@), ascending(reader.emits@), resolve_is_identity(*old(w)),
+        old(watermarks).keys@.len() == 0 && old(watermarks).vals@.len() == 0,
+        // every rebuilt memtable of an earlier sealed journal has been sealed or thrown away (sealed_decide's postcondition)
+        forall|k: u64| #![trigger old(w).trees[k]] old(w).trees.dom().contains(k) ==> old(w).trees[k].mem_max is None,
+    ensures replay_frame(*old(w), *final(w)), // [C12:replay-touches-only-trees]
+//@loop 0
+                invariant
+                    w.recovering, !w.active, replay_frame(*old(w), *w), no_indirection(reader.emits@), ascending(reader.emits@), resolve_is_identity(*old(w)),
+                    __fjx_it0.emits == reader.emits, __fjx_it0.idx@ == __fjx_n0, 0 <= __fjx_n0 <= reader.emits@.len(),
+                    w.trees == replay_batches(*old(w), old(w).trees, reader.emits@, __fjx_n0), // [C02:replay-is-the-fold-of-the-emitted-batches]
+                    ids_valid(reader.emits@), all_ids_below(reader.emits@, __fjx_n0, w.next_ks_id), // [C12:P-ID-counter-above-every-journaled-id]
+                    wm_inv(*watermarks, w.trees, if __fjx_n0 > 0 { reader.emits@[__fjx_n0 - 1].seqno } else { 0 }), // [C10:watermark-tops-every-rebuilt-memtable]
+                ensures __fjx_n0 == reader.emits@.len(),
+                decreases reader.emits@.len() - __fjx_n0,
+//@proof after let batch = match (batch)
+            let ghost bv = batch_view(batch);
+            let ghost t0 = w.trees;
+            proof { assert(bv == reader.emits@[__fjx_n0 - 1]); if __fjx_n0 > 1 { assert(reader.emits@[__fjx_n0 - 2].seqno <= reader.emits@[__fjx_n0 - 1].seqno); } }
+//@loop 1
+                    invariant
+                        w.recovering, !w.active, replay_frame(*old(w), *w), bv == reader.emits@[__fjx_n0 - 1], 0 < __fjx_n0 <= reader.emits@.len(), no_indirection(reader.emits@), ascending(reader.emits@), resolve_is_identity(*old(w)),
+                        batch.seqno == bv.seqno, batch.cleared_keyspaces@ == bv.cleared,
+                        0 <= __fjx_n1 <= bv.items.len(), __fjx_it1.remaining().len() == bv.items.len() - __fjx_n1,
+                        forall|j: int| 0 <= j < __fjx_it1.remaining().len() ==> item_view(#[trigger] __fjx_it1.remaining()[j]) == bv.items[__fjx_n1 + j],
+                        w.trees == replay_items(*old(w), t0, bv.items, __fjx_n1, bv.seqno), // [C03:every-item-of-the-batch-applied] [C12:unknown-ids-skipped-not-aborting]
+                        ids_valid(reader.emits@), all_ids_below(reader.emits@, __fjx_n0 - 1, w.next_ks_id), ids_below(bv, __fjx_n1, 0, w.next_ks_id), // [C12:P-ID-counter-above-every-journaled-id]
+                        wm_inv(*watermarks, w.trees, bv.seqno), // [C10:watermark-tops-every-rebuilt-memtable]
+                        __fjx_it0.emits == reader.emits, __fjx_it0.idx@ == __fjx_n0,
+                        t0 == replay_batches(*old(w), old(w).trees, reader.emits@, __fjx_n0 - 1),
+                    ensures __fjx_n1 == bv.items.len(),
+                    decreases bv.items.len() - __fjx_n1,
+//@proof before @loop-start 1
+                    proof { assert(item_view(item) == bv.items[__fjx_n1 - 1]); }
+//@proof before match (watermarks.hof_get(item.keyspace_id))
+                    let ghost wm0 = *watermarks; let ghost tr0 = w.trees;
+                    proof { assert(resolve(*old(w), item.keyspace_id) == Some(handle.id)); assert(handle.id == item.keyspace_id); }
+//@proof after match item.value_type
+                    proof { assert(wm_updated(wm0, *watermarks, item.keyspace_id, batch.seqno, *handle)); lemma_wm_step(wm0, *watermarks, tr0, w.trees, item.keyspace_id, batch.seqno, false, *handle); }
+//@loop 2
+                    invariant
+                        w.recovering, !w.active, replay_frame(*old(w), *w), bv == reader.emits@[__fjx_n0 - 1], 0 < __fjx_n0 <= reader.emits@.len(), no_indirection(reader.emits@), ascending(reader.emits@), resolve_is_identity(*old(w)),
+                        batch.seqno == bv.seqno, batch.cleared_keyspaces@ == bv.cleared,
+                        0 <= __fjx_n2 <= bv.cleared.len(), __fjx_it2.remaining().len() == bv.cleared.len() - __fjx_n2,
+                        forall|j: int| 0 <= j < __fjx_it2.remaining().len() ==> *(#[trigger] __fjx_it2.remaining()[j]) == bv.cleared[__fjx_n2 + j],
+                        w.trees == replay_clears(*old(w), replay_items(*old(w), t0, bv.items, bv.items.len() as int, bv.seqno), bv.cleared, __fjx_n2, bv.seqno), // [C04:clear-re-executed-on-replay]
+                        ids_valid(reader.emits@), all_ids_below(reader.emits@, __fjx_n0 - 1, w.next_ks_id), ids_below(bv, bv.items.len() as int, __fjx_n2, w.next_ks_id), // [C12:P-ID-counter-above-every-journaled-id]
+                        wm_inv(*watermarks, w.trees, bv.seqno), // [C10:watermark-tops-every-rebuilt-memtable]
+                        __fjx_it0.emits == reader.emits, __fjx_it0.idx@ == __fjx_n0,
+                        t0 == replay_batches(*old(w), old(w).trees, reader.emits@, __fjx_n0 - 1),
+                    ensures __fjx_n2 == bv.cleared.len(),
+                    decreases bv.cleared.len() - __fjx_n2,
+//@proof before @loop-start 2
+                    proof { assert(*keyspace_id == bv.cleared[__fjx_n2 - 1]); }
+//@proof before match (watermarks.hof_get(*keyspace_id))
+                    let ghost wm0 = *watermarks; let ghost tr0 = w.trees;
+                    proof { assert(resolve(*old(w), *keyspace_id) == Some(handle.id)); assert(handle.id == *keyspace_id); }
+//@proof after handle.tree.clear(
+                    proof { assert(wm_updated(wm0, *watermarks, *keyspace_id, batch.seqno, *handle)); lemma_wm_step(wm0, *watermarks, tr0, w.trees, *keyspace_id, batch.seqno, true, *handle); }
+//@proof before shim_slice_end
+    proof {
+        assert(w.trees == replay_batches(*old(w), old(w).trees, reader.emits@, reader.emits@.len() as int)); // [C02:all-emitted-batches-replayed]
+        assert(all_ids_below(reader.emits@, reader.emits@.len() as int, w.next_ks_id)); // [C12:P-ID-counter-above-every-journaled-id]
+        // what sealed_decide requires of the watermark table (its stated precondition, now a consequence of the replay)
+        assert(forall|j: int| 0 <= j < watermarks.vals@.len() ==> wm_ok(#[trigger] watermarks.vals@[j]) && w.trees.dom().contains(watermarks.vals@[j].keyspace.id)
+            && (w.trees[watermarks.vals@[j].keyspace.id].mem_max is Some ==> w.trees[watermarks.vals@[j].keyspace.id].mem_max == Some(watermarks.vals@[j].lsn))); // [C10:watermark-tops-every-rebuilt-memtable] [C04:decision-slice-precondition-established]
+        assert(forall|a: int, b: int| 0 <= a < watermarks.vals@.len() && 0 <= b < watermarks.vals@.len() && a != b ==> (#[trigger] watermarks.vals@[a]).keyspace.id != (#[trigger] watermarks.vals@[b]).keyspace.id); // [C04:decision-slice-precondition-established]
+    }
+//@end
 
 /// the outcome for one keyspace with records in the sealed journal: its rebuilt memtable is either gone again because the
 /// tables already hold everything in it (persisted >= lsn), or it is kept as a sealed memtable and the seqno counter is above it
